@@ -682,28 +682,56 @@ Lemma poly_is_empty_unfold O ts :
   is_polytope_empty O (polytope_vars ts []) (map (term_to_row (polytope_vars ts [])) ts).
 Proof. reflexivity. Qed.
 
-Theorem is_empty_iff O ts :
-  lp_spec 0 O -> lp_total O -> wfl ts ->
-  (poly_is_empty O ts = inl true <-> forall rho, ~ sat_list rho ts) /\
-  (exists b, poly_is_empty O ts = inl b).
+Section IsEmpty.
+Variable O : oracle.
+Variable ts : list pterm.
+Hypothesis Hts : wfl ts.
+
+Lemma poly_is_empty_total : lp_total O -> exists b, poly_is_empty O ts = inl b.
+Proof. intros HT. rewrite poly_is_empty_unfold. apply is_polytope_empty_total. exact HT. Qed.
+Lemma poly_is_empty_errors_only e : poly_is_empty O ts = inr e -> e = ValueErr \/ e = OracleMiss.
 Proof.
-  intros HO HT Hts. rewrite poly_is_empty_unfold.
-  set (vs := polytope_vars ts []).
+  rewrite poly_is_empty_unfold. unfold is_polytope_empty.
+  destruct (map _ ts); [discriminate|]. destruct (Nat.eqb _ 0); [discriminate|].
+  destruct (O _); intros H; inversion H; tauto.
+Qed.
+Lemma poly_is_empty_not_valueerr : lp_total O -> poly_is_empty O ts <> inr ValueErr.
+Proof. intros HT H. destruct (poly_is_empty_total HT) as [b Hb]. congruence. Qed.
+
+Hypothesis HO : lp_spec 0 O.
+
+Lemma poly_is_empty_true : poly_is_empty O ts = inl true -> forall rho, ~ sat_list rho ts.
+Proof.
+  rewrite poly_is_empty_unfold. set (vs := polytope_vars ts []).
+  assert (Hn : NoDup vs) by (apply NoDup_polytope_vars; [apply Hts|constructor]).
+  assert (Hc : covered vs ts) by (apply covered_polytope_l; apply Hts).
+  intros H rho Hs. apply (is_polytope_empty_true O HO _ _ H (map rho vs)).
+  - apply map_length.
+  - apply feas_sat; assumption.
+Qed.
+Lemma poly_is_empty_false : poly_is_empty O ts = inl false -> exists rho, sat_list rho ts.
+Proof.
+  rewrite poly_is_empty_unfold. set (vs := polytope_vars ts []).
   assert (Hn : NoDup vs) by (apply NoDup_polytope_vars; [apply Hts|constructor]).
   assert (Hc : covered vs ts) by (apply covered_polytope_l; apply Hts).
   assert (Hne : map (term_to_row vs) ts = [] \/ vs <> []).
   { destruct (nil_or_not ts) as [E|E]; [left; rewrite E; reflexivity|right].
     apply polytope_vars_nonempty_l; assumption. }
-  split; [|apply is_polytope_empty_total; exact HT].
-  split.
-  - intros H rho Hs. apply (is_polytope_empty_true O HO _ _ H (map rho vs)).
-    + apply map_length.
-    + apply feas_sat; assumption.
-  - intros Hinf. destruct (is_polytope_empty_total O vs (map (term_to_row vs) ts) HT) as [[|] Hb];
-      [exact Hb|].
-    exfalso. apply (is_polytope_empty_false O HO vs _ Hne) in Hb. destruct Hb as [x [Lx Fx]].
-    destruct (point_is_valuation vs x Hn Lx) as [rho ->]. apply (Hinf rho).
-    apply (feas_sat vs ts rho Hn Hc). exact Fx.
+  intros Hb. apply (is_polytope_empty_false O HO vs _ Hne) in Hb. destruct Hb as [x [Lx Fx]].
+  destruct (point_is_valuation vs x Hn Lx) as [rho ->]. exists rho.
+  apply (feas_sat vs ts rho Hn Hc). exact Fx.
+Qed.
+End IsEmpty.
+
+Theorem is_empty_iff O ts :
+  lp_spec 0 O -> lp_total O -> wfl ts ->
+  (poly_is_empty O ts = inl true <-> forall rho, ~ sat_list rho ts) /\
+  (exists b, poly_is_empty O ts = inl b).
+Proof.
+  intros HO HT Hts. split; [|apply poly_is_empty_total; assumption].
+  split; [apply poly_is_empty_true; assumption|].
+  intros Hinf. destruct (poly_is_empty_total O ts HT) as [[|] Hb]; [exact Hb|].
+  exfalso. destruct (poly_is_empty_false O ts Hts HO Hb) as [rho Hr]. apply (Hinf rho Hr).
 Qed.
 
 (* ------------------------------------------------------------------ *)
@@ -722,7 +750,8 @@ Lemma poly_optimize_unfold O ts objective mx :
   match O (opt_lp ts objective mx) with
   | LpUnbounded => ret None
   | LpOpt f _ => ret (Some (qmul (opt_polarity mx) f))
-  | LpInfeasible | LpOther _ => raise ValueErr
+  | LpInfeasible => bind (poly_is_empty O ts) (fun e => if e then raise ValueErr else ret None)
+  | LpOther _ => raise ValueErr
   | LpMiss => raise OracleMiss
   end.
 Proof.
@@ -796,6 +825,7 @@ Proof.
   intros H. destruct (nil_or_not ts) as [Ets|Nts]; [rewrite Ets in H; discriminate|].
   rewrite poly_optimize_unfold in H by assumption. fold P in H.
   pose proof (HO P) as Hs. destruct (O P) as [f s| | |st|]; try discriminate.
+  2:{ apply bind_inl in H. destruct H as [[|] [_ H]]; discriminate. }
   inversion H; subst v. clear H. destruct Hs as [Hex Hall]. rewrite Q2R_0 in *.
   assert (Hall' : forall rho, sat_list rho ts -> Q2R f <= (if mx then -1 else 1) * lin rho objective).
   { intros rho Hs. rewrite <- opt_value. specialize (Hall (map rho vs)). 
@@ -809,6 +839,15 @@ Proof.
   - intros rho Hs. specialize (Hall' rho Hs). destruct mx; lra.
 Qed.
 
+(* status 2 (LpInfeasible: "infeasible or unbounded") with a non-empty constraint set *)
+Local Lemma opt_infeasible_nonempty :
+  (forall x, point_of P x -> ~ feas (lp_rows P) x) \/ unbounded_below P ->
+  (exists rho, sat_list rho ts) -> unbounded_below P.
+Proof.
+  intros [Hinf|Hu] [rho Hs]; [|exact Hu]. exfalso.
+  apply (Hinf (map rho vs)); [apply opt_point; apply map_length|apply opt_feas; exact Hs].
+Qed.
+
 Theorem optimize_none :
   poly_optimize O ts objective mx = inl None ->
   (exists rho, sat_list rho ts) /\
@@ -818,31 +857,64 @@ Proof.
   intros H. destruct (nil_or_not ts) as [Ets|Nts]; [rewrite Ets in H; discriminate|].
   rewrite poly_optimize_unfold in H by assumption. fold P in H.
   pose proof (HO P) as Hs. destruct (O P) as [f s| | |st|]; try discriminate.
-  destruct Hs as [Hex Hu]. split.
-  - destruct (opt_points (fun x => feas (lp_rows P) x)) as [rho Fx]; [exact Hex|].
-    exists rho. apply opt_feas. exact Fx.
-  - apply opt_unbounded. exact Hu.
+  - (* status 2, then is_empty() = False *)
+    apply bind_inl in H. destruct H as [[|] [He H]]; [discriminate|].
+    pose proof (poly_is_empty_false O ts Hts HO He) as Hne.
+    split; [exact Hne|]. apply opt_unbounded. apply opt_infeasible_nonempty; assumption.
+  - destruct Hs as [Hex Hu]. split.
+    + destruct (opt_points (fun x => feas (lp_rows P) x)) as [rho Fx]; [exact Hex|].
+      exists rho. apply opt_feas. exact Fx.
+    + apply opt_unbounded. exact Hu.
 Qed.
 
-(* for ts = [] the code raises ValueError too (linprog rejects the empty A_ub) although [] is
-   satisfiable and, e.g., the zero objective is bounded: hence ts <> [] *)
+Hypothesis Nts : ts <> [].
+Hypothesis HT : lp_total O.
+
+(* ValueError exactly when the constraint set is empty *)
 Theorem optimize_error :
-  ts <> [] ->
-  poly_optimize O ts objective mx = inr ValueErr -> lp_total O ->
-  (forall rho, ~ sat_list rho ts) \/
-  (forall bound, exists rho, sat_list rho ts /\
-     (if mx then bound < lin rho objective else lin rho objective < bound)).
+  poly_optimize O ts objective mx = inr ValueErr -> forall rho, ~ sat_list rho ts.
 Proof.
-  intros Nts H HT.
-  rewrite poly_optimize_unfold in H by assumption. fold P in H.
-  pose proof (HO P) as Hs. pose proof (HT P) as Ht.
+  intros H. rewrite poly_optimize_unfold in H by assumption. fold P in H.
+  pose proof (HT P) as Ht.
   destruct (O P) as [f s| | |st|]; try discriminate; try contradiction.
-  destruct Hs as [Hinf|Hu].
-  - left. intros rho Hs. apply (Hinf (map rho vs)); [apply opt_point; apply map_length|].
-    apply opt_feas. exact Hs.
-  - right. apply opt_unbounded. exact Hu.
+  apply bind_inr in H. destruct H as [H|[[|] [He H]]].
+  - exfalso. apply (poly_is_empty_not_valueerr O ts HT H).
+  - apply (poly_is_empty_true O ts Hts HO He).
+  - discriminate.
 Qed.
-
+Theorem optimize_empty_raises :
+  (forall rho, ~ sat_list rho ts) -> poly_optimize O ts objective mx = inr ValueErr.
+Proof.
+  intros Hinf. rewrite poly_optimize_unfold by assumption. fold P.
+  assert (Hno : ~ exists x, point_of P x /\ feas (lp_rows P) x).
+  { intros Hex. destruct (opt_points (fun x => feas (lp_rows P) x) Hex) as [rho Fx].
+    apply (Hinf rho). apply opt_feas. exact Fx. }
+  pose proof (HO P) as Hs. pose proof (HT P) as Ht.
+  destruct (O P) as [f s| | |st|]; try contradiction.
+  - exfalso. apply Hno. destruct Hs as [[x [Px [Fx _]]] _]. exists x. tauto.
+  - destruct (poly_is_empty_total O ts HT) as [[|] He]; rewrite He; [reflexivity|].
+    exfalso. destruct (poly_is_empty_false O ts Hts HO He) as [rho Hr]. apply (Hinf rho Hr).
+  - exfalso. apply Hno. apply Hs.
+Qed.
+(* None exactly when the objective is unbounded (in the requested direction) over a non-empty set *)
+Theorem optimize_unbounded_none :
+  (exists rho, sat_list rho ts) ->
+  (forall bound, exists rho, sat_list rho ts /\
+     (if mx then bound < lin rho objective else lin rho objective < bound)) ->
+  poly_optimize O ts objective mx = inl None.
+Proof.
+  intros Hne Hunb. rewrite poly_optimize_unfold by assumption. fold P.
+  pose proof (HO P) as Hs. pose proof (HT P) as Ht.
+  destruct (O P) as [f s| | |st|]; try contradiction.
+  - exfalso. destruct Hs as [_ Hall]. rewrite Q2R_0 in Hall.
+    destruct (Hunb (if mx then - Q2R f else Q2R f)) as [rho [Hr Hv]].
+    assert (Q2R f - 0 <= dot (lp_obj P) (map rho vs)).
+    { apply Hall; [apply opt_point; apply map_length|apply opt_feas; exact Hr]. }
+    rewrite opt_value in H. destruct mx; lra.
+  - destruct (poly_is_empty_total O ts HT) as [[|] He]; rewrite He; [|reflexivity].
+    exfalso. destruct Hne as [rho Hr]. apply (poly_is_empty_true O ts Hts HO He rho Hr).
+  - reflexivity.
+Qed.
 End Optimize.
 
 Theorem optimize_errors_only O ts objective mx e :
@@ -850,7 +922,11 @@ Theorem optimize_errors_only O ts objective mx e :
 Proof.
   unfold poly_optimize. destruct ts as [|t0 ts']; [intros H; inversion H; tauto|].
   destruct (polytope_vars _ _); [intros H; inversion H; tauto|].
-  destruct (O _); intros H; inversion H; tauto.
+  destruct (O _); intros H; try (inversion H; tauto).
+  apply bind_inr in H. destruct H as [H|[[|] [_ H]]].
+  - eapply poly_is_empty_errors_only; eassumption.
+  - inversion H; tauto.
+  - discriminate.
 Qed.
 
 Theorem optimize_bounds O ts objective lo hi :
